@@ -9,6 +9,10 @@ LEVEL = "proof"
 HARNESSES = [
     {"name": "checks", "src": "harness.cpp", "flags": ["-O1", "-DTETL_ENABLE_CONTRACT_CHECKS=1"]},
     {"name": "safe", "src": "harness.cpp", "flags": ["-O1", "-DTETL_ENABLE_CONTRACT_CHECKS_SAFE=1"], "env": {"VERIF_C05_SAFE": "1"}},
+    # the same probes under ASan + UBSan: a read or write outside the object (or a wrapping pointer computation) BEFORE the
+    # handler runs aborts the child ("crash" leg) instead of reaching it
+    {"name": "asan", "src": "harness.cpp", "flags": ["-O0", "-DTETL_ENABLE_CONTRACT_CHECKS=1", "-fsanitize=address,undefined",
+                                                     "-fno-sanitize-recover=all"]},
 ]
 RULE = ("every probed operation x every small object state x arguments at and beyond each boundary (size, size+1, SIZE_MAX, "
         "SIZE_MAX-size, 2^63, dynamic_extent) and the complementary valid arguments; the handler compares the object's bytes with the "
@@ -102,6 +106,13 @@ def gen_more(out):
                 out.append(f"tostr {cap} int {v}")
             if -2**63 <= v < 2**63:
                 out.append(f"tostr {cap} long {v}")
+            if 0 <= v < 2**32:
+                out.append(f"tostr {cap} uint {v}")
+            if 0 <= v:
+                out.append(f"tostr {cap} ulong {v}")
+        for v in (2**32 - 1, 10**19 - 1, 10**19, 2**64 - 1):
+            out.append(f"tostr {cap} ulong {v}")
+        out.append(f"tostr {cap} uint {2**32 - 1}")
     for e in (0, 1):
         out += [f"opt {e} arrow", f"opt {e} carrow", f"opt {e} refarrow", f"exparrow {e} arrow", f"exparrow {e} carrow"]
     for n in (0, 3):
